@@ -279,6 +279,8 @@ def check_contract(run, f, cfg, maxlen=3):
                 if not ok and len(bad) < 6:
                     bad.append("%s(%r) -> %r, position %d" % (name, s_, r, p_))
         except (Unsupported, Diverged) as e:
+            from .. import scope
+            scope.check_bound(run, "C16.R2", name + ":scope", f, ["crate::token::Tokenizer::" + name], maxlen, cfg, "%s (outside the interpreter's fragment)" % name)
             run.anchor("C16.R2", name + ":contract", "%s outside the interpreter's fragment: %s" % (name, e), cfg)
             continue
         run.ob("C16.R2", name + ":contract", not bad,
